@@ -18,6 +18,12 @@ func MapKeys[K cmp.Ordered, V any](m map[K]V) []K {
 	}
 	sort.Slice(keys, func(i, j int) bool { return keys[i] < keys[j] })
 	s := S
+	if s != nil && s.cfg.YieldOnMap && s.cur != nil {
+		// Starting to iterate a map is no synchronization, but code that walks a shared table twice
+		// ("reset all marks; then visit") is only wrong if somebody else runs in between.
+		s.event("maprange", "")
+		s.yield()
+	}
 	if s == nil || len(keys) < 2 {
 		return keys
 	}
